@@ -31,9 +31,11 @@ structure Node (ι : Type) where
   res : List (ι × Dep)
   deriving Repr
 
+/-- `edges` = (from, to, dependency type given at `connect` time); the type recorded here never changes, whereas
+the entry in the target's `out` list may later be rewritten to `obv`. -/
 structure Graph (ι : Type) where
   nodes : List (Node ι)
-  edges : List (ι × ι)
+  edges : List (ι × ι × Dep)
   ready : List ι
   deriving Repr
 
@@ -65,10 +67,13 @@ def Graph.setNode (g : Graph ι) (n : Node ι) : Graph ι :=
   { g with nodes := g.nodes.map (fun m => if m.id = n.id then n else m) }
 
 def Graph.succs (g : Graph ι) (id : ι) : List ι :=
-  (g.edges.filter (fun e => e.1 = id)).map (·.2)
+  (g.edges.filter (fun e => e.1 = id)).map (·.2.1)
 
 def Graph.preds (g : Graph ι) (id : ι) : List ι :=
-  (g.edges.filter (fun e => e.2 = id)).map (·.1)
+  (g.edges.filter (fun e => e.2.1 = id)).map (·.1)
+
+def Graph.hasEdge (g : Graph ι) (src dst : ι) : Bool :=
+  g.edges.any (fun e => e.1 = src ∧ e.2.1 = dst)
 
 def insertSet (x : ι) (l : List ι) : List ι := if x ∈ l then l else l ++ [x]
 
@@ -95,8 +100,8 @@ def Graph.connect (g : Graph ι) (src dst : ι) (d : Dep) : Except (DgErr ι) (G
   | _, none => .error (.notFound dst)
   | some _, some n =>
     if src = dst then .error (.connectSelf src)
-    else if (src, dst) ∈ g.edges then .error (.connectionExists src dst)
-    else .ok ({ g with edges := g.edges ++ [(src, dst)] }.setNode { n with out := n.out ++ [(src, d)] })
+    else if g.hasEdge src dst then .error (.connectionExists src dst)
+    else .ok ({ g with edges := g.edges ++ [(src, dst, d)] }.setNode { n with out := n.out ++ [(src, d)] })
 
 /-- `PushStartingNodes`: every node without an outstanding hard dependency becomes ready. -/
 def Graph.pushStarting (g : Graph ι) : Graph ι :=
@@ -125,7 +130,7 @@ def Graph.depResolved (g : Graph ι) (nid src : ι) (st : St) : Except (DgErr ι
     if st = .waiting then .error (.notifiedOfWaiting nid src) else
     match alookup src n.out with
     | none =>
-      if (src, nid) ∈ g.edges then .error (.panicDupResolution nid src)
+      if g.hasEdge src nid then .error (.panicDupResolution nid src)
       else .error (.panicNoConnection src nid)
     | some dt =>
       let n1 : Node ι := { n with
@@ -175,14 +180,14 @@ def Graph.resolve (g : Graph ι) (id : ι) (st : St) : Except (DgErr ι) (Graph 
       Graph.propagate (g.edges.length + 1) g1 ((g1.succs id).map (fun t => (t, id, st)))
 
 /-- Kahn-style elimination as in `HasCycles` (nodes without inbound connections are removed repeatedly). -/
-def Graph.hasCyclesAux : Nat → List ι → List (ι × ι) → Bool
+def Graph.hasCyclesAux : Nat → List ι → List (ι × ι × Dep) → Bool
   | 0, remaining, _ => !remaining.isEmpty
   | f + 1, remaining, edges =>
-    let free := remaining.filter (fun n => !(edges.any (fun e => e.2 = n)))
+    let free := remaining.filter (fun n => !(edges.any (fun e => e.2.1 = n)))
     if free.isEmpty then !remaining.isEmpty
     else
       let remaining' := remaining.filter (fun n => n ∉ free)
-      let edges' := edges.filter (fun e => e.1 ∉ free ∧ e.2 ∉ free)
+      let edges' := edges.filter (fun e => e.1 ∉ free ∧ e.2.1 ∉ free)
       Graph.hasCyclesAux f remaining' edges'
 
 def Graph.hasCycles (g : Graph ι) : Bool :=
